@@ -368,6 +368,9 @@ def wl_helpers(ctx, idx, rng):
     mem = gen.pick(rng, ["C", "F", "strided", "neg", "offset"])
     x, memkind = gen.layout(rng, gen.rand_data(rng, shape, dtype), mem)
     holder = gen.pick(rng, ["array", "array", "signal", "dask"])
+    if holder == "array" and rng.random() < 0.2:
+        x = x.astype(x.dtype.newbyteorder(">"))      # data read from a big-endian file
+        memkind += "+bigendian"
     if holder == "signal":
         sig, _ = gen.make_signal(rng, "Signal", shape[0], data=x, rate=1 * u.kHz)
         with probes.quiet():
@@ -415,7 +418,11 @@ def wl_helpers(ctx, idx, rng):
     ctx.bucket("helper", name, np.dtype(dtype).name, memkind, holder, exc is None)
     # pb.utils helpers
     if idx % 3 == 0:
-        xr, mk = gen.layout(rng, gen.rand_data(rng, shape, gen.pick(rng, [np.float64, np.float32])), mem)
+        xr, mk = gen.layout(rng, gen.rand_data(rng, shape, gen.pick(rng, [np.float64, np.float32, np.int16, np.int32])), mem)
+        if rng.random() < 0.4:
+            xr = xr.astype(xr.dtype.newbyteorder(">"))
+            if rng.random() < 0.5:
+                xr = np.repeat(xr, 2, axis=0)[::2]      # and a strided view of it
         b = snapshot.snap(xr)
         ax = int(rng.integers(-len(shape), len(shape)))
         try:
